@@ -151,6 +151,7 @@ pub fn expectation(rootfd: i32, path: &str, nosym: bool) -> Expect {
 }
 
 pub struct H {
+    pub kernel_backend: bool,
     pub pre: Vec<String>,
     pub expect: Option<Expect>,
     pub found: Vec<(usize, String, String)>,
@@ -174,7 +175,18 @@ impl Hooks for H {
         let added: Vec<&String> = post.iter().filter(|l| !self.pre.contains(l)).collect();
         let exp = self.expect.clone().unwrap_or(Expect::Error("?".into()));
         let idx = rec.idx;
-        let mut fail = |c: &str, d: String| self.found.push((idx, c.to_string(), d));
+        let links = links_followed(ctx.out, rec);
+        let kb = self.kernel_backend;
+        let why_all = format!("{exp:?}");
+        let mut eloop_skipped = 0u64;
+        let mut fail = |c: &str, d: String| {
+            // the kernel-derived expectation is unreliable in the ELOOP band
+            let probe = format!("{d} {why_all}");
+            match eloop_triage(c, &probe, kb, links) {
+                Some(c2) => self.found.push((idx, c2, d)),
+                None => eloop_skipped += 1,
+            }
+        };
         if !added.is_empty() {
             fail("something-added", format!("remove_all({path:?}) added {:?}", added.iter().take(3).collect::<Vec<_>>()));
         }
@@ -386,7 +398,7 @@ fn run_conc(u: &mut Universe, case: &Case, st: &mut Stats, sample: bool, all_mus
 }
 
 fn run_seq(u: &mut Universe, case: &Case, st: &mut Stats, sample: bool) -> bool {
-    let mut h = H { pre: Vec::new(), expect: None, found: Vec::new(), removed_something: Vec::new() };
+    let mut h = H { kernel_backend: !case.uni.no_openat2, pre: Vec::new(), expect: None, found: Vec::new(), removed_something: Vec::new() };
     let mut tries = 0;
     let out = loop {
         h.found.clear();
